@@ -300,8 +300,33 @@ def construct_owner(tu, g, n):
             p = tu.par(p)
             hops += 1
             continue
+        if k in CONSTRUCTS and is_smart_ptr(tu.sd(p).get('cty', '')) and len(tu.kids(p)) == 1:
+            p = tu.par(p)       # std::unique_ptr<T> v(new T(...)): the variable owns the new object
+            hops += 1
+            continue
         break
     return ('temp', n['id'])
+
+
+def is_smart_ptr(t):
+    t = clean_t(t)
+    return t.startswith('std::unique_ptr<') or t.startswith('std::shared_ptr<')
+
+
+def pointer_var(tu, e):
+    """(decl id, how) of the variable a pointer expression designates: p | smart.get() | smart.release()"""
+    d = decl_ref(tu, e)
+    if d:
+        return d, 'plain'
+    c = core(tu, e)
+    if c is not None and c.get('kind') == 'CXXMemberCallExpr':
+        sd, obj, args = tu.call_parts(c)
+        name = sd.get('q', '').split('::')[-1]
+        if name in ('get', 'release') and is_smart_ptr(sd.get('rec', '') + '<') and obj is not None and not args:
+            d = decl_ref(tu, obj)
+            if d:
+                return d, name
+    return None, None
 
 
 def _thin(tu, x):
@@ -369,6 +394,7 @@ class HandoffAnalysis:
         consumed = set()
         ev = {}            # node id -> event dict
         handles_var = {}   # var decl id -> wrap event   (pointer to a heap task wrapping the closure)
+        smart_vars = {}    # var decl id -> True if the variable is a std::unique_ptr / shared_ptr owning the task
         handles_mem = {}   # field id -> wrap event      (member task wrapping the closure)
 
         def carrier_arg(a):
@@ -417,6 +443,10 @@ class HandoffAnalysis:
                     h.wrappers.append((rec, callee, hits[0][0], n))
                     if owner[0] == 'var':
                         handles_var[owner[1]] = w
+                        vd = tu.node(owner[1])
+                        vt = (vd or {}).get('type', {})
+                        if is_smart_ptr(vt.get('desugaredQualType') or vt.get('qualType') or ''):
+                            smart_vars[owner[1]] = True
                     elif owner[0] == 'member':
                         handles_mem[owner[1]] = w
                     else:
@@ -485,8 +515,10 @@ class HandoffAnalysis:
                 # a task object wrapping the closure handed to the task system
                 if q in self.submit_names:
                     for a in args:
-                        d = decl_ref(tu, a)
+                        d, how = pointer_var(tu, a)
                         w = handles_var.get(d) if d else None
+                        if w is not None and how in ('plain', 'get') and smart_vars.get(d):
+                            ev.setdefault(('keeps', n['id']), d)    # the smart pointer still owns the submitted task
                         if w is None:
                             x = addr_of(tu, a)
                             m = member_of_this(tu, x) if x is not None else None
@@ -499,7 +531,7 @@ class HandoffAnalysis:
                     if n['id'] in ev:
                         continue
                 else:
-                    esc = [a for a in args if decl_ref(tu, a) in handles_var or
+                    esc = [a for a in args if pointer_var(tu, a)[0] in handles_var or
                            (addr_of(tu, a) is not None and member_of_this(tu, addr_of(tu, a)) in handles_mem)]
                     if esc and self.lib_fn(q) is None and (tu.callee_fn(n) is None or tu.cfg(tu.callee_fn(n)) is None):
                         h.undecided.append('the task object wrapping the closure is passed to %s, which is not a known task-system '
